@@ -40,6 +40,12 @@ CHECKS = {
     "C07": ("Hypothesis-generated image pairs / masks / cutoffs / tilt models vs a float64 reference pipeline (mask, Butterworth, wedge, Pearson or cosine); metamorphic gain/offset invariance; differential score == landscape centre == zero-range align; landscape arg-max vs align shift on planted peaks; loader rows vs model",
             "Generated-input exploration with a reference-model oracle (2e-4), metamorphic invariances and differential agreement between score, landscape and align for the normalised models; loader.score / construct_landscape rows against the model applied to subtomogram i.",
             "the wedge mask in the reference is the model's own (geometry is C08's); planted peaks >= 0.6 px inside the range with mild noise; FSC agreement limited to boxes <= 10", "4/C07"),
+    "C09": ("Hypothesis-generated loaders (single/batch/group/mock, numpy or chunked dask) vs numpy means of the loaded subtomograms; split halves decoded from power-of-two constant blocks",
+            "Generated-input exploration with a reference oracle (average == mean of asnumpy, count-weighted batch mean, per-group means, chunking independence) and a decoding oracle for split averaging (disjoint, exhaustive, non-empty, reproducible, consistent with the full average and with fsc_with_halfmaps).",
+            "split decoding uses identity-oriented molecules inside constant blocks of value 2^i (exact in float32)", "4/C09"),
+    "C15": ("Hypothesis-generated image shapes / bin sizes / chunkings / compute flags / loaders vs block-sum reference; exact-class subtomograms compared with block sums of b-times-larger subtomograms",
+            "Generated-input exploration with a reference oracle (binned image == block sums, scale and position bookkeeping, parent untouched, lazy == eager) and an exact metamorphic relation between binned and original subtomograms on the binned grid.",
+            "exact class: identity orientation and voxel-aligned positions in both loaders; compute flag not asserted for b == 1 (binning(1) is a copy)", "4/C15"),
 }
 
 NOT_YET = {}
